@@ -24,6 +24,15 @@ def make_constraint(kind, ndim):
             x[0] = 1.0
             return x
         return c, (lambda x: float(x[0]) == 1.0)
+    if kind in ('pin_hi', 'pin_lo'):
+        # the last coordinate pinned exactly ON a side of the box [-2, 3] (a point of the box: in range, not out of it)
+        side = 3.0 if kind == 'pin_hi' else -2.0
+
+        def c(x):
+            y = list(x)
+            y[-1] = side
+            return y
+        return c, (lambda x: float(x[-1]) == side)
     if kind == 'clamp':
         def c(x):
             return [min(2.0, max(-1.0, float(v))) for v in x]
@@ -116,6 +125,18 @@ def gen_scenarios(seed, n, props):
                   strategy=rng.choice(['Best1Bin', 'Rand1Bin', 'Best1Exp', 'RandToBest1Exp', 'Best2Bin', 'Rand2Exp']),
                   install_ranges_at=rng.choice([0, 0, 0, 2, 5]) if 'C02' in props else 0,
                   install_cons_at=rng.choice([0, 0, 0, 3]) if 'C03' in props else 0)
+        # constraints that pin a coordinate exactly on a side of the box, also with the re-drawing clip=False ranges
+        # (own generator: the other draws keep their values)
+        r2 = random.Random(sc['seed'] * 17 + 3)
+        if 'C03' in props and bounds in ('box', 'infinite-side') and r2.random() < 0.2:
+            sc['cons'] = r2.choice(['pin_hi', 'pin_lo'])
+            sc['tight'], sc['clip'] = r2.choice([(None, False), (None, False), (None, True), (True, None), (None, None)])
+        # the four strategies the main draw does not name (own generator)
+        if random.Random(sc['seed'] * 19 + 1).random() < 0.4:
+            sc['strategy'] = random.Random(sc['seed'] * 19 + 2).choice(['Best2Exp', 'Rand2Bin', 'RandToBest1Bin', 'Rand1Exp'])
+        # ranges switched off and the identical ranges installed again before step k (own generator)
+        if 'C02' in props and bounds != 'none' and random.Random(sc['seed'] * 13 + 7).random() < 0.2:
+            sc['toggle_ranges_at'] = random.Random(sc['seed'] * 13 + 8).choice([1, 3])
         # which termination condition is evaluated after every step (own generator: the other draws keep their values)
         sc['term'] = 'gradnorm' if ('C02' in props and random.Random(sc['seed'] * 31 + 5).random() < 0.15) else 'vtr'
         out.append(sc)
@@ -256,6 +277,9 @@ def run_scenario(sc, props):
             s.SetConstraints(cfun)
             cons_on = True
             checked_from_c = rec.n
+        if ranges_on and sc.get('toggle_ranges_at') == k:
+            s.SetStrictRanges(False)        # off ...
+            install_ranges()                # ... and the very same ranges on again: in force for every later call
         n_before = rec.n
         try:
             best_before = [float(t) for t in s.bestSolution]
